@@ -145,3 +145,31 @@ func (b *Buf) Free() {
 		b.B = nil
 	}
 }
+
+// MakeBytes replaces make([]byte, l, c) at the library's output-buffer growth sites (overlay
+// rewrite). When the current world asks for it (GuardGrowth), the grown buffer has exactly the
+// requested length and capacity but ends flush against a PROT_NONE page, so that a write past
+// its capacity (by Go or by assembly) faults at once instead of silently corrupting the heap.
+// A smaller grant than requested is never made.
+//
+//go:norace
+func MakeBytes(l, c int) []byte {
+	w := cur
+	if w == nil || !w.GuardGrowth || c <= 0 || c > 64<<20 {
+		return make([]byte, l, c)
+	}
+	b := Alloc(c, PlaceGuardEnd, 0)
+	w.grown = append(w.grown, b)
+	w.Stats[StatGuardGrowth]++
+	return b.B[:l]
+}
+
+// releaseGrown unmaps the growth buffers of a finished world.
+//
+//go:norace
+func (w *World) releaseGrown() {
+	for _, b := range w.grown {
+		b.Free()
+	}
+	w.grown = nil
+}
